@@ -35,6 +35,7 @@ func VerifHarness_ForwardBytes() {
 	clientAddr := &net.TCPAddr{IP: net.IPv4(203, 0, 113, 7), Port: 50123}
 	client := &zzFwdClient{conn: &zzPipeConn{remote: clientAddr, in: zz.Bytes(zz.Choose(4))}, buffered: zz.Bytes(zz.Choose(3))}
 	later := append([]byte{}, client.conn.in...)
+	buffered := append([]byte{}, client.buffered...)
 	d := &zzDialer{fromBackend: zz.Bytes(zz.Choose(4))}
 	d.install()
 	hs := &packet.Handshake{ProtocolVersion: 767, ServerAddress: "Play.Example.", Port: 25565, NextStatus: 2}
@@ -82,7 +83,7 @@ func VerifHarness_ForwardBytes() {
 	}
 	zz.Assert(len(got) >= len(wantFrame) && bytes.Equal(got[:len(wantFrame)], wantFrame), "the handshake the backend received is not the client's handshake (as sent, or with only the server address rewritten)")
 	rest := got[len(wantFrame):]
-	wantRest := append(append([]byte{}, client.buffered...), later...)
+	wantRest := append(append([]byte{}, buffered...), later...)
 	zz.Assert(bytes.Equal(rest, wantRest), "client bytes after the handshake did not reach the backend unchanged and in order")
 	zz.Assert(bytes.Equal(client.conn.out, d.fromBackend), "backend bytes did not reach the client unchanged")
 	zz.Assert(client.closed >= 1 && b.closed >= 1, "a connection was left open after the forward ended")
@@ -104,6 +105,35 @@ func replaceAllZZ(s, old, new string) string {
 		}
 	}
 	return out
+}
+
+// The first backend accepts the connection and then resets it at an arbitrary point (during the
+// handshake frame or while the client's buffered bytes are written). Whatever happens next, no backend
+// ever receives the client's stream with a hole in it: what each dialed backend got is a prefix of
+// handshake frame + buffered bytes + later bytes.
+func VerifHarness_BackendResetsEarly() {
+	zz.MaxLen(3)
+	zz.Unwind(300)
+	zzFixedClock()
+	sm := NewStrategyManager()
+	route := config.Route{Host: []string{"*"}, Backend: []string{"first:1", "second:1"}}
+	client := &zzFwdClient{conn: &zzPipeConn{remote: &net.TCPAddr{IP: net.IPv4(1, 2, 3, 4), Port: 5}, in: zz.Bytes(zz.Choose(3))}, buffered: zz.Bytes(1 + zz.Choose(2))}
+	later := append([]byte{}, client.conn.in...)
+	buffered := append([]byte{}, client.buffered...)
+	d := &zzDialer{breakAt: map[string]int{"first:1": 1 + zz.Choose(4)}}
+	d.install()
+	hs := &packet.Handshake{ProtocolVersion: 767, ServerAddress: "play.example", Port: 25565, NextStatus: 2}
+	original := []byte{0, 9, 9}
+	pc := &proto.PacketContext{Direction: proto.ServerBound, Protocol: 767, Payload: append([]byte{}, original...)}
+	Forward(time.Second, []config.Route{route}, logr.Discard(), client, hs, pc, sm)
+	zz.WaitAll()
+	full := append(append(zzFrame(original), buffered...), later...)
+	for _, addr := range d.dialed {
+		got := d.backends[addr].out
+		zz.Assert(len(got) <= len(full) && bytes.Equal(got, full[:len(got)]), "a backend received the client's stream with bytes missing in the middle (the bytes sent right behind the handshake were lost)")
+	}
+	zz.Assert(sm.ActiveConnections() == 0, "the active-connection count did not return to zero")
+	zz.Reach("reset-early")
 }
 
 // A host matching no route: the client is closed and no backend is dialed.
